@@ -9,22 +9,6 @@ Import ListNotations RecordSetNotations.
 (* the windows (known findings) the proof needs: F20/F21 commit, F37 sdlag, F25 dup, F38 zombie *)
 Definition W_C03 (o : obs) : bool := w_commit o || w_sdlag o || w_dup o || w_zombie o.
 
-(* "the shutdown's snapshot missed nobody": evaluated on the observer state BEFORE the event.
-   (1) an instance is created after a completed shutdown by Run()'s spawn loop or outside any API call;
-   (2) when a shutdown returns, an instance that is not in its snapshot has a goroutine that has not
-       reached inst_exit (it was created by a start / restart / Run() that overlaps the shutdown: the
-       snapshot is taken from the registry, the newcomer registers when the shutdown has released it). *)
-Definition byapi_of (o : obs) (th : tid) : bool :=
-  match get th (o_api o) with Some OpRun | None => false | Some _ => true end.
-Definition snap_of (o : obs) (th : tid) : list iid := match get th (o_sd_cur o) with Some l => l | None => [] end.
-Definition escape_C03 (o : obs) (te : tid * event) : bool :=
-  match snd te with
-  | ENewInst i n => Nat.ltb 0 (o_sd_done o) && negb (byapi_of o (fst te))
-  | EShutdownEnd => existsb (fun p => negb (memN (fst p) (snap_of o (fst te))) && negb (o_gone (snd p))) (oi o)
-  | _ => false
-  end.
-Definition escapes_C03 (cs : amap pconf) (evs : list (tid * event)) : bool := bad_run cs escape_C03 (obs0 cs) evs.
-
 (* ---- program counter classes -------------------------------------------------------------------------- *)
 Definition gonepc (p : ipc) : bool := match p with IWgDone | IGone => true | _ => false end.
 Definition cpc (p : ipc) : bool := match p with IPreStart | IPreLaunch | IStateSet => true | _ => false end.
@@ -69,17 +53,14 @@ Definition c_pend (s : sys) (o : obs) : Prop :=
   forall th i, spc (get_thread s th) = SPend i \/ spc (get_thread s th) = SPendE i ->
   exists x, get i (insts s) = Some x /\ o_stopreq (oi_get o i) = true /\ badpc (pc x) = false /\
             (spc (get_thread s th) = SPendE i -> pend (get_thread s th) = Some (REndEarly i) \/ l_runctx x = true).
-Definition c_after (s : sys) (o : obs) : Prop :=
-  0 < o_sd_done o -> forall i x, get i (insts s) = Some x -> memN i (o_after_sd_spawn o) = true \/ nl x = true.
-
 Record Inv (s : sys) (o : obs) : Prop := mkInv {
-  iv_inst : c_inst s o; iv_name : c_name s; iv_run : c_run s; iv_sd : c_sd s o; iv_pend : c_pend s o; iv_after : c_after s o }.
+  iv_inst : c_inst s o; iv_name : c_name s; iv_run : c_run s; iv_sd : c_sd s o; iv_pend : c_pend s o }.
 
 Definition R3 (s : sys) (o : obs) : Prop := Rc cs s o /\ Inv s o.
 
 Lemma Inv_init ord : Inv (init cs ord) (obs0 cs).
 Proof.
-  constructor; unfold c_inst, c_name, c_run, c_sd, c_pend, c_after; cbn; try discriminate.
+  constructor; unfold c_inst, c_name, c_run, c_sd, c_pend; cbn; try discriminate.
   - intros n v Hv Hr. exfalso. rewrite (get_map_fst init_vis cs n) in Hv. destruct (get n cs) as [c|]; [|discriminate].
     cbn in Hv. injection Hv as <-. unfold init_vis in Hr. cbn in Hr. destruct (deferred c); discriminate.
   - intros th order [[r H]|H]; discriminate.
@@ -115,7 +96,7 @@ Qed.
 
 Lemma Inv_refresh s o : Inv s o -> Inv s (refresh_succ o).
 Proof.
-  intros [H1 H2 H3 H4 H5 H6]. constructor; auto.
+  intros [H1 H2 H3 H4 H5]. constructor; auto.
   - intros i x xo' Hx Hxo'. destruct (refresh_get_inv _ _ _ Hxo') as (xo & Hxo & Ea & Ec & Eg & Es).
     destruct (H1 i x xo Hx Hxo) as [A B C D E F G I]. constructor; auto; [now rewrite Ea|intros Hc; rewrite Ec; auto|intros Hg; rewrite Eg in Hg; auto].
   - intros th i Hs. destruct (H5 th i Hs) as (x & Hx & Hst & Hb & Hp). exists x. rewrite refresh_oi_get_stopreq. auto.
@@ -146,7 +127,7 @@ Qed.
 
 Lemma Inv_flush th s o : Inv s o -> Inv (flush th s) o.
 Proof.
-  intros [H1 H2 H3 H4 H5 H6]. constructor.
+  intros [H1 H2 H3 H4 H5]. constructor.
   - intros i x' xo Hx' Hxo. destruct (flush_bwd _ _ _ _ Hx') as (x & Hx & L). eapply PI_flush; eauto.
   - intros i j x' y' Hx' Hy' Hij Hn.
     destruct (flush_bwd _ _ _ _ Hx') as (x & Hx & (En & Ep & _)). destruct (flush_bwd _ _ _ _ Hy') as (y & Hy & (En2 & Ep2 & _)).
@@ -161,8 +142,6 @@ Proof.
     rewrite Ep. destruct (N.eqb_spec th th').
     + subst th'. right. destruct Hp as [Hp|Hp]; auto.
     + destruct Hp as [Hp|Hp]; auto.
-  - intros Hsd i x' Hx'. destruct (flush_bwd _ _ _ _ Hx') as (x & Hx & (En & Ep & _ & _ & _ & Hr & _)).
-    destruct (H6 Hsd i x Hx) as [Hm|Hn]; [now left|right; eapply nl_mono; eauto].
 Qed.
 
 
@@ -216,12 +195,6 @@ Proof.
   intros HS H n v' Hv' Hr. destruct (csame_vis_bwd _ _ _ _ HS Hv') as (v & Hv & Est). rewrite Est in Hr.
   destruct (H n v Hv Hr) as (j & y & Hy & Hn & Hd & Hp). destruct (csame_fwd _ _ _ _ HS Hy) as (y' & Hy' & (En & Ep & _ & _ & Ed & _)).
   exists j, y'. repeat split; congruence.
-Qed.
-Lemma c_after_frame s s' o o' : sys_csame s s' -> o_sd_done o' = o_sd_done o -> o_after_sd_spawn o' = o_after_sd_spawn o ->
-  c_after s o -> c_after s' o'.
-Proof.
-  intros HS E1 E2 H Hsd i x' Hx'. rewrite E1 in Hsd. rewrite E2. destruct (csame_bwd _ _ _ _ HS Hx') as (x & Hx & L).
-  rewrite (nl_core _ _ L). eauto.
 Qed.
 
 (* ---- the instance's own events ---------------------------------------------------------------------------- *)
@@ -361,10 +334,6 @@ Proof.
     + exists y. rewrite (Hoth k Hne). split; [exact Hy|]. split; [exact Hst'|]. split; [exact Hb|].
       intros HE. destruct (N.eq_dec th' th) as [->|Hne']; [|rewrite (Epd Hne'); auto].
       destruct (Hp HE) as [Hp'|Hp']; [congruence|right; congruence].
-  - intros Hsd j y' Hy'. rewrite obs_pre_sd_done in Hsd by (destruct e; try discriminate Hev; exact I).
-    rewrite obs_pre_after by (destruct e; try discriminate Hev; exact I).
-    destruct (Hbwd _ _ Hy') as (y & Hy & _ & _ & _ & _ & Hn & _).
-    destruct (iv_after _ _ HI Hsd j y Hy); auto.
 Qed.
 
 (* ---- threads: the shutdown program counter ----------------------------------------------------------------- *)
@@ -600,32 +569,6 @@ Proof.
   destruct (get i (insts s)) as [x|]; [eauto|discriminate].
 Qed.
 
-Lemma c_after_step s o th e s' : Rc cs s o -> Inv s o -> step_core s th e = Some s' -> own_ev e = false ->
-  escape_C03 o (th, e) = false -> c_after s' (obs_pre cs o (th, e)).
-Proof.
-  intros HRc HI H Hev Hesc Hsd j x' Hx'.
-  destruct (step_core_inst_bwd _ _ _ _ H Hev j x' Hx') as [(x & Hx & L)|(Hnx & n & c & -> & Hc & ->)].
-  - destruct L as (_ & _ & _ & _ & _ & Hnl).
-    assert (Hdef : forall (Hd : o_sd_done (obs_pre cs o (th, e)) = o_sd_done o)
-                          (Ha : forall k, memN k (o_after_sd_spawn o) = true -> memN k (o_after_sd_spawn (obs_pre cs o (th, e))) = true),
-              memN j (o_after_sd_spawn (obs_pre cs o (th, e))) = true \/ nl x' = true).
-    { intros Hd Ha. rewrite Hd in Hsd. destruct (iv_after _ _ HI Hsd j x Hx); auto. }
-    destruct e; try discriminate Hev;
-    try (apply Hdef; [apply obs_pre_sd_done; exact I|intros k Hk; rewrite obs_pre_after by exact I; exact Hk]).
-    + (* ENewInst *) apply Hdef; [reflexivity|]. intros k Hk. cbn. destruct (_ && _); [|exact Hk]. unfold memN in *. cbn. rewrite Hk. apply orb_true_r.
-    + (* EShutdownEnd *) right. apply Hnl. destruct (sdend_guard _ _ _ H) as (order & Hdp & Had).
-      pose proof (iv_sd _ _ HI th order Hdp) as Hcur.
-      destruct (rc_inst _ _ _ HRc j x Hx) as (xo & Hxo & _). pose proof (iv_inst _ _ HI j x xo Hx Hxo) as P.
-      destruct (memN j order) eqn:Hm.
-      * destruct (all_done_in _ _ _ Had Hm) as (x2 & Hx2 & Hd2). assert (x2 = x) by congruence. subst x2.
-        exact (pi_done _ _ _ P Hd2).
-      * apply gonepc_nl, (pi_gone _ _ _ P). unfold escape_C03 in Hesc. cbn [fst snd] in Hesc.
-        pose proof (existsb_false_in _ _ Hesc (j, xo) (get_in _ _ _ Hxo)) as He. cbn in He.
-        unfold snap_of in He. rewrite Hcur, Hm in He. cbn in He. destruct (o_gone xo); [reflexivity|discriminate].
-  - (* the new instance *) left. cbn in Hsd |- *. unfold escape_C03, byapi_of in Hesc. cbn [fst snd] in Hesc.
-    destruct (o_sd_done o) as [|k]; [lia|]. cbn in Hesc.
-    destruct (get th (o_api o)) as [[]|]; cbn in Hesc; try discriminate; cbn; now rewrite N.eqb_refl.
-Qed.
 
 (* ---- status writes -------------------------------------------------------------------------------------------- *)
 Lemma state_effect s th i s0 s' : step_state s th i s0 = Some s' ->
@@ -820,14 +763,14 @@ Proof.
     + rewrite (Hvoth _ Hnn) in Hv. eauto.
 Qed.
 
-(* ---- one step of the core ---------------------------------------------------------------------------------------- *)
+(* ---- one step of the core: the five clauses of Inv -------------------------------------------------------------- *)
 Lemma step_core_own s th e : own_ev e = true -> step_core s th e = step_own s th e.
 Proof. destruct e; intros H; try discriminate H; reflexivity. Qed.
 
 Lemma Inv_core s o th e s' : Rc cs s o -> Inv s o -> pend (get_thread s th) = None -> step_core s th e = Some s' ->
-  W_C03 (obs_pre cs o (th, e)) = false -> escape_C03 o (th, e) = false -> Inv s' (obs_pre cs o (th, e)).
+  W_C03 (obs_pre cs o (th, e)) = false -> Inv s' (obs_pre cs o (th, e)).
 Proof.
-  intros HRc HI Hpn H HW Hesc. destruct (own_ev e) eqn:Hev.
+  intros HRc HI Hpn H HW. destruct (own_ev e) eqn:Hev.
   { rewrite step_core_own in H by exact Hev. eapply Inv_own; eauto. }
   constructor.
   - destruct (ev_class e Hev) as [Hf|[Hnf|(i & s0 & ->)]].
@@ -838,88 +781,10 @@ Proof.
   - eapply c_run_step; eauto.
   - eapply c_sd_step; eauto.
   - eapply c_pend_step; eauto.
-  - eapply c_after_step; eauto.
 Qed.
 
-Lemma R3_step s o th e s' : R3 s o -> step s (th, e) = Some s' ->
-  W_C03 (obs_step cs o (th, e)) = false -> escape_C03 o (th, e) = false -> R3 s' (obs_step cs o (th, e)).
-Proof.
-  intros [HRc HI] H HW Hesc. split; [eapply Rc_step; eauto|].
-  rewrite obs_step_pre in *. apply Inv_refresh.
-  unfold step in H. cbn [fst snd] in H.
-  eapply (Inv_core (flush th s)); eauto.
-  - eapply Rc_sys_same; eauto using sys_same_flush.
-  - now apply Inv_flush.
-  - destruct (flush_thread th s th) as (_ & _ & _ & Ep). rewrite Ep, N.eqb_refl. reflexivity.
-Qed.
-
-(* ---- the monitor ------------------------------------------------------------------------------------------------- *)
 Lemma nl_not_alive x : nl x = true -> alivepc (pc x) = false.
 Proof. unfold nl. destruct (pc x); cbn; auto; discriminate. Qed.
 Lemma run_not_gone p : runpc p = true -> gonepc p = false.
 Proof. destruct p; cbn; auto; discriminate. Qed.
-
-Lemma mon_core s o th e s' : Rc cs s o -> Inv s o -> step_core s th e = Some s' ->
-  escape_C03 o (th, e) = false -> mon_C03 cs o (th, e) = true.
-Proof.
-  intros HRc HI H Hesc. unfold mon_C03. cbn [fst snd].
-  destruct e; try reflexivity; try (destruct (ev_inst o th _); reflexivity).
-  - (* ELaunch *)
-    destruct ok; [|try reflexivity; cbn; destruct (get th (o_th o)); reflexivity].
-    cbn [ev_inst]. rewrite <- (rc_th _ _ _ HRc th).
-    cbn in H. unfold step_own, own_inst in H.
-    destruct (get th (thinst s)) as [i|] eqn:Et; [|discriminate]. destruct (get i (insts s)) as [x|] eqn:Ex; [|discriminate].
-    destruct (pc x) eqn:Ep; try discriminate H.
-    destruct (Nat.ltb 0 (o_sd_done o)) eqn:Hsd; [|reflexivity]. apply Nat.ltb_lt in Hsd.
-    destruct (iv_after _ _ HI Hsd i x Ex) as [Hm|Hn]; [exact Hm|]. unfold nl in Hn. rewrite Ep in Hn. discriminate.
-  - (* EShutdownEnd *)
-    destruct (sdend_guard _ _ _ H) as (order & Hdp & Had).
-    pose proof (iv_sd _ _ HI th order Hdp) as Hcur. rewrite Hcur.
-    apply forallb_forall. intros i Hi. apply memN_In in Hi.
-    destruct (all_done_in _ _ _ Had Hi) as (x & Hx & Hd).
-    destruct (rc_inst _ _ _ HRc i x Hx) as (xo & Hxo & Hnm & Hcf & _).
-    pose proof (iv_inst _ _ HI i x xo Hx Hxo) as P. unfold oi_get. rewrite Hxo.
-    pose proof (pi_done _ _ _ P Hd) as Hnl.
-    apply andb_true_iff. split.
-    + rewrite (pi_alive _ _ _ P). destruct (alive x) eqn:Ea; [|reflexivity].
-      pose proof (pi_pc _ _ _ P) as B. rewrite Ea in B. specialize (B eq_refl). rewrite (nl_not_alive _ Hnl) in B. discriminate.
-    + destruct (rc_name _ _ _ HRc _ _ Hcf) as (v & r & Hv & Hr & _ & Hst & _).
-      rewrite Hnm. unfold on_get. rewrite Hr, Hst.
-      destruct (is_running_status (st v)) eqn:Hrun; [|reflexivity]. exfalso.
-      destruct (iv_run _ _ HI _ _ Hv Hrun) as (j & y & Hy & _ & Hdy & Hrp).
-      destruct (memN j order) eqn:Hm.
-      * destruct (all_done_in _ _ _ Had Hm) as (y2 & Hy2 & Hd2). congruence.
-      * destruct (rc_inst _ _ _ HRc j y Hy) as (yo & Hyo & _).
-        unfold escape_C03 in Hesc. cbn [fst snd] in Hesc.
-        pose proof (existsb_false_in _ _ Hesc (j, yo) (get_in _ _ _ Hyo)) as He. cbn in He.
-        unfold snap_of in He. rewrite Hcur, Hm in He. cbn in He.
-        destruct (o_gone yo) eqn:Hg; [|discriminate].
-        pose proof (pi_gone _ _ _ (iv_inst _ _ HI j y yo Hy Hyo) Hg) as Hgp. rewrite (run_not_gone _ Hrp) in Hgp. discriminate.
-Qed.
-
-Lemma R3_mon s o th e s' : R3 s o -> step s (th, e) = Some s' -> escape_C03 o (th, e) = false -> mon_C03 cs o (th, e) = true.
-Proof.
-  intros [HRc HI] H Hesc. unfold step in H. cbn [fst snd] in H.
-  eapply (mon_core (flush th s)); eauto.
-  - eapply Rc_sys_same; eauto using sys_same_flush.
-  - now apply Inv_flush.
-Qed.
-
-Lemma R3_step_mon s o e s' : R3 s o -> step s e = Some s' ->
-  W_C03 (obs_step cs o e) = false -> escape_C03 o e = false -> R3 s' (obs_step cs o e) /\ mon_C03 cs o e = true.
-Proof. destruct e as [th e]. intros HR H HW Hesc. split; [eapply R3_step; eauto|eapply R3_mon; eauto]. Qed.
 End RelC03.
-
-(* ---- the theorems --------------------------------------------------------------------------------------------------- *)
-Theorem C03_partial_lemma : forall cs ord evs s,
-  accept (init cs ord) evs = Some s ->
-  W_C03 (final_obs cs evs) = false ->
-  escapes_C03 cs evs = false ->
-  holds_C03 cs evs = true.
-Proof.
-  intros cs ord evs s Hacc HW Hesc. unfold holds_C03.
-  apply (xsim_holds cs ord (R3 cs) (mon_C03 cs) W_C03 escape_C03 (R3_init cs ord) (R3_step_mon cs) (W_C03_mono cs) evs s Hacc HW Hesc).
-Qed.
-
-
-Print Assumptions C03_partial_lemma.
